@@ -60,6 +60,10 @@ def judge(ctx, s, sp, impl, model, origin):
             sig = "crash:" + p["cls"]
         ctx.offender(sig, "hostlist_create (or walking its result) crashes: %s" % impl[:100], case)
         return
+    if p["kind"] == "null" and str(p.get("fatal", "")).endswith("-garbled"):
+        ctx.offender("diagnostic-garbled", "the diagnostic does not quote the text that was typed (the text was "
+                     "interpreted, e.g. as a printf format): %s" % impl[:100], case)
+        return
     if p["kind"] in ("timeout", "oom"):
         ctx.offender("resource:bound>=2^64-1" if big else "resource:" + p["kind"],
                      "hostlist_create exceeds the per-call ceiling (%s)" % p["kind"], case)
@@ -126,7 +130,8 @@ def run(ctx):
            "rule": "byte strings (no NUL) from: random text over the biased alphabet `[ ] , - digits letters blank + `, "
                    "mutated well-formed expressions (delete/insert/replace incl. control and high bytes), ranges with "
                    "numbers around 2^31, 2^32, 2^63, 2^64 and of 20-40 digits, stray/nested brackets, words of "
-                   "1021..1025/4094..4097/8000 bytes, blank/sign shapes inside brackets, 10239/10240/10241 ranges in one "
+                   "1021..1025/4094..4097/8000 bytes, blank/sign shapes inside brackets, printf conversions (%s %n %d ...) inside "
+                   "brackets (the diagnostic must quote them verbatim), 10239/10240/10241 ranges in one "
                    "bracket; (thorough) all strings over {a,0,1,9,[,],-,,} up to length 7; non-trivial = contains a "
                    "bracket or a digit run >= 10; distinct = distinct text"}
     dist = {}
